@@ -197,3 +197,126 @@ def wf_py(c):
             return b not in puncts() and all(_allplain(t) and '=' not in t and ',' not in t for kv in f.items() for t in kv)
         return False
     return c.slash in ('/', '\\', '|') and wf_py(c.left) and wf_py(c.right)
+
+
+# ---- tokens and trees ---------------------------------------------------------------------------
+WORD_POOL = ['He', 'runs', 'the', 'a', 'dog', '(', ')', '[', ']', '{', '}', '<', '>', '&', '"', "'", 'a/b', 'x<y', 'a>b', '<>', 'it\'s',
+             '-LRB-', 'R&D', 'ü', '猫', 'カタカナ', 'é', 'a.b', ',', '.', ';', ':', '!', '?', '--', 'U.S.', '1,000', '50%', '=', 'x=y', '_', '*', '#1',
+             'a(b', 'b)c', '((', '))', '&amp;', '<b>', 'é', 'naïve', 'Ω', '≤', 'a|b', '|', 'a_b', 'あ', 'word']
+
+
+def rand_word(rng, plain=False):
+    if plain or rng.random() < 0.5:
+        return rng.choice(['He', 'runs', 'the', 'dog', 'cat', 'sees', 'big', 'and', 'Mary', 'quickly', 'of', 'in', '猫', 'が', '走る', 'naïve'])
+    if rng.random() < 0.8:
+        return rng.choice(WORD_POOL)
+    alphabet = 'abcXYZ019()[]{}<>&"\'/|=,.;:!?-_*#%+~^`$@äßΩ猫あ'
+    return ''.join(rng.choice(alphabet) for _ in range(rng.randint(1, 6)))
+
+
+def rand_token(rng, lang='en', full=True, plain=False):
+    from depccg.types import Token
+    w = rand_word(rng, plain)
+    if lang == 'en':
+        if not full:
+            return Token(word=w)
+        return Token(word=w, lemma=rand_word(rng, plain).lower(), pos=rng.choice(['NN', 'VBZ', 'DT', 'JJ', ',', '.', '-LRB-', 'PRP$', 'X&Y']),
+                     entity=rng.choice(['O', 'I-PER', 'B-ORG']), chunk=rng.choice(['I-NP', 'B-VP', 'O']))
+    t = Token(word=w)
+    if full:
+        t['pos'] = rng.choice(['名詞', '動詞', '助詞', '*'])
+        t['pos1'] = rng.choice(['一般', '自立', '*', '格助詞'])
+        t['pos2'] = rng.choice(['*', '一般'])
+        t['pos3'] = '*'
+        t['inflectionType'] = rng.choice(['*', '五段・ラ行'])
+        t['inflectionForm'] = rng.choice(['*', '基本形'])
+        t['base'] = rand_word(rng, plain)
+    return t
+
+
+EN_LABELS = [('fa', '>'), ('ba', '<'), ('fc', '>B'), ('bx', '<B'), ('gfc', '>B'), ('gbx', '<B'), ('conj', '<Φ>'), ('lp', '<lp>'), ('rp', '<rp>'), ('lp', '<*>')]
+JA_LABELS = [('fa', '>'), ('ba', '<'), ('fc', '>B'), ('bx', '<B1'), ('bx', '<B2'), ('bx', '<B3'), ('bx', '<B4'), ('fx', '>Bx1'), ('fx', '>Bx2'), ('fx', '>Bx3'), ('other', 'SSEQ')]
+JA_UNARY = ['ADNext', 'ADNint', 'ADV0', 'ADV1', 'ADV2']
+
+
+def rand_tree(rng, lang='en', nleaves=None, full_tokens=True, plain_words=False, cats=None, head=None):
+    """an arbitrary well-formed tree (not necessarily grammar-licensed)"""
+    from depccg.tree import Tree
+    n = nleaves or rng.randint(1, 6)
+    pool = cats or [Category.parse(s) for s in rng.sample(inventory('ja' if lang == 'ja' else 'en'), 12)]
+
+    def leaf():
+        return Tree.make_terminal(rand_token(rng, lang, full_tokens, plain_words), rng.choice(pool))
+
+    def build(k):
+        if k == 1:
+            t = leaf()
+        else:
+            i = rng.randint(1, k - 1)
+            l, r = build(i), build(k - i)
+            ops, sym = rng.choice(JA_LABELS if lang == 'ja' else EN_LABELS)
+            hl = (rng.random() < 0.5) if head is None else head
+            t = Tree.make_binary(rng.choice(pool), l, r, ops, sym, hl)
+        while rng.random() < 0.2:
+            if lang == 'ja':
+                u = rng.choice(JA_UNARY)
+                t = Tree.make_unary(rng.choice(pool), t, u, u)
+            else:
+                t = Tree.make_unary(rng.choice(pool), t, rng.choice(['lex', 'tr']), '<un>')
+        return t
+    return build(n)
+
+
+@functools.lru_cache(None)
+def grammar(lang):
+    """(binary, unary) rule functions of the real grammar with the shipped unary table, no seen-rule filter"""
+    from depccg.grammar import en, ja
+    g = ja if lang == 'ja' else en
+    table = {}
+    for k, v in model_file(f'unary_rules.{lang}.jsonnet'):
+        table.setdefault(Category.parse(k), []).append(Category.parse(v))
+    return g.apply_binary_rules, functools.partial(g.apply_unary_rules, unary_rules=table), table
+
+
+def licensed_tree(rng, lang='en', nleaves=None, full_tokens=True, plain_words=False, tries=60):
+    """a derivation built bottom-up with the real rule functions over the shipped lexicon; falls back to a smaller tree"""
+    from depccg.tree import Tree
+    binary, unary, table = grammar(lang)
+    inv = [Category.parse(s) for s in inventory(lang)]
+    n = nleaves or rng.randint(1, 6)
+
+    def leaf(c):
+        return Tree.make_terminal(rand_token(rng, lang, full_tokens, plain_words), c)
+
+    def maybe_unary(t):
+        if rng.random() < 0.4:
+            rs = unary(t.cat)
+            if rs:
+                r = rng.choice(rs)
+                return Tree.make_unary(r.cat, t, r.op_string, r.op_symbol)
+        return t
+    t = maybe_unary(leaf(rng.choice(inv)))
+    k = 1
+    while k < n:
+        done = False
+        for _ in range(tries):
+            o = maybe_unary(leaf(rng.choice(inv)))
+            left = rng.random() < 0.5
+            l, r = (o, t) if left else (t, o)
+            rs = binary(l.cat, r.cat)
+            if rs:
+                x = rng.choice(rs)
+                t = maybe_unary(Tree.make_binary(x.cat, l, r, x.op_string, x.op_symbol, x.head_is_left))
+                k += 1
+                done = True
+                break
+        if not done:
+            break
+    return t
+
+
+def tree_sig(t):
+    """structural signature used for distinctness counts"""
+    if t.is_leaf:
+        return ('L', str(t.cat), tuple(sorted(t.token.items())))
+    return (len(t.children), str(t.cat), t.op_string, t.head_is_left) + tuple(tree_sig(c) for c in t.children)
